@@ -9,8 +9,8 @@ import (
 // c14Gen2 draws templated grammars that satisfy the static rules of the template language by
 // construction (every parameter of a referenced nonterminal gets a value, references by name
 // exist in the caller, lookahead flags are supplied to the nonterminals that test them), so that
-// most cases reach instantiation. It supersedes c14Gen.
-func c14Gen2(t *rapid.T) c14Case {
+// most cases reach instantiation. It supersedes c14Gen; c14Gen2 adds set parts to it.
+func c14GenBase(t *rapid.T) c14Case {
 	c := c14Case{T: rapid.IntRange(3, 5).Draw(t, "T")}
 	nGlobal := rapid.IntRange(1, 3).Draw(t, "globals")
 	for i := 0; i < nGlobal; i++ {
